@@ -59,7 +59,9 @@ def gen_history(rng, malformed):
             nm = [next(names) for _ in range(k)]
             if malformed and rng.random() < 0.3 and len(nm) > 1:
                 nm[1] = nm[0]
-            ops.append(("NewParamNode", nm, [int(rng.integers(-50, 50)) for _ in nm]))
+            # a third of the defaults are integer literals (as in Param(core, name, 0, "f8")): value a multiple of 1000 here,
+            # declared to uros as a Python int; later non-integer updates must still arrive unrounded
+            ops.append(("NewParamNode", nm, [int(rng.integers(-50, 50)) if rng.random() < 0.67 else 1000 * int(rng.integers(-3, 4)) for _ in nm]))
         elif r < 0.87:
             if inited:
                 continue
@@ -140,7 +142,7 @@ def run_real(ops):
                     # the model rejects the whole node: only generated in the malformed stream, compared as "err"
                     raise ValueError("duplicate or late parameter declaration")
                 i = nsub[0]
-                ps = {n: uros.Param(core, "p%d" % n, float(v) / 1000.0, "f8") for n, v in zip(o[1], o[2])}
+                ps = {n: uros.Param(core, "p%d" % n, (int(v // 1000) if v % 1000 == 0 else float(v) / 1000.0), "f8") for n, v in zip(o[1], o[2])}
 
                 def cb(msg, ps=ps, i=i):
                     trace.append((i, getattr(msg, "_vid", 0)))
